@@ -1,9 +1,11 @@
 pub mod c02;
+pub mod c05;
 
 use crate::Entry;
 
 pub fn all() -> Vec<Entry> {
     vec![
         Entry { scn: &c02::C02Cell, quick_runs: 20_000, thorough_runs: 2_000_000 },
+        Entry { scn: &c05::C05Bucket, quick_runs: 6_000, thorough_runs: 1_000_000 },
     ]
 }
